@@ -24,6 +24,11 @@ SPECS = [
     ("str", "t + scale(a) ~ z + center(b) | scale(a):A", {"z", "A"}),
     ("kw", {"lhs": "center(a) + t", "rhs": ("scale(b)", "center(a):w")}, {"w"}),
     ("str", "t ~ poly(a, 2) | z:a", {"z"}),
+    # the same categorical term in two parts whose surrounding terms span different things (full vs reduced rank)
+    ("str", "t ~ a + A | 0 + A + z", {"z", "A"}),
+    ("kw", {"first": "1 + A + a", "second": "0 + A + t"}, {"A"}),
+    ("str", "t ~ A + A:a | A:a + b", {"A"}),
+    ("str", "A ~ t + A | a:A", {"A"}),
 ]
 
 
